@@ -207,13 +207,27 @@ def harnesses(tier):
     return H
 
 
-def layers(tier, name):
-    b = 2 if tier == 'quick' else 3
-    if name == 'H7-three-threads':
-        return [('B', 2)]
-    if tier == 'quick' and name not in ('H1-build-race', 'H2-xsitype-keys', 'H3-scratch-context', 'H6-lazy-shared'):
-        return [('B', b)]
-    return [('A', 1), ('B', b)]
+def plan(tier):
+    """[(harness, version, layer, preemption bound)]"""
+    out = []
+    if tier == 'quick':
+        both = ('1.0', '1.1')
+        out += [('H1-build-race', '1.0', 'B', 2)]
+        out += [('H2-xsitype-keys', '1.0', 'A', 1)] + [('H2-xsitype-keys', v, 'B', 2) for v in both]
+        out += [('H2b-xsitype-simple', '1.0', 'B', 2)]
+        out += [('H3-scratch-context', v, lay, b) for v in both for lay, b in (('A', 1), ('B', 2))]
+        out += [('H3b-validate-vs-scratch', '1.0', 'B', 2), ('H4-first-use', '1.0', 'B', 2), ('H5-decode-encode', '1.0', 'B', 2)]
+        out += [('H6-lazy-shared', v, lay, b) for v in both for lay, b in (('A', 1), ('B', 2))]
+        return out
+    for name in harnesses(tier):
+        for v in ('1.0', '1.1'):
+            if name == 'H7-three-threads':
+                out.append((name, v, 'B', 1))
+                continue
+            out += [(name, v, 'A', 1), (name, v, 'B', 2)]
+            if name in ('H3-scratch-context', 'H3b-validate-vs-scratch', 'H6-lazy-shared'):
+                out.append((name, v, 'B', 3))
+    return out
 
 
 NSHARD = 8
@@ -221,12 +235,22 @@ NSHARD = 8
 
 def shards(tier, seed):
     out = []
-    for name in harnesses(tier):
-        for version in ('1.0', '1.1'):
-            for layer, bound in layers(tier, name):
-                for k in range(NSHARD):
-                    out.append((tier, name, version, layer, bound, k))
+    for name, version, layer, bound in plan(tier):
+        for k in range(NSHARD):
+            out.append((tier, name, version, layer, bound, k))
     return out
+
+
+def shard_filter(k):
+    """Shard k owns the deviations at index = k (mod NSHARD) of the default schedule and of the
+    'other thread starts' schedule; the two roots themselves are re-run by every shard."""
+    def flt(prefix, i):
+        if len(prefix) == 0:
+            return i == 0 or i % NSHARD == k
+        if len(prefix) == 1:
+            return i % NSHARD == k
+        return True
+    return flt
 
 
 def run_shard(shard, acc):
@@ -253,7 +277,7 @@ def run_shard(shard, acc):
         npre[0] += pre
 
     stats = T.explore(make_bodies, is_point, bound, check_results,
-                      first_level=(lambda i: i % NSHARD == k), on_execution=on_exec)
+                      first_level=shard_filter(k), on_execution=on_exec)
     acc.cnt('executions_%s_%s' % (name, layer), stats['executions'])
     acc.cnt('max_points_%s_%s_%s' % (name, layer, version), 0)
     acc.counters['max_points_%s_%s_%s' % (name, layer, version)] = max(
@@ -307,5 +331,5 @@ def replay(case):
 
 def bounds(tier, seed):
     return {'threads': '2 (3 in H7, thorough)', 'layer_A': 'every xmlschema function call is a point, preemption bound 1',
-            'layer_B': 'interface points (%d functions + lock operations), preemption bound %d' % (len(INTERFACE), 2 if tier == 'quick' else 3),
-            'harnesses': sorted(harnesses(tier)), 'versions': ['1.0', '1.1']}
+            'layer_B': 'interface points (%d functions + lock operations), preemption bound 2 (3 for the small harnesses in thorough)' % len(INTERFACE),
+            'plan': ['%s %s layer %s bound %d' % p for p in plan(tier)]}
